@@ -10,11 +10,21 @@ def run(c: Check):
               "fired at random) with the C09 oracle after every step; plus a real watchdog observer on a scratch "
               "directory.  non-trivial = the schedule contains a release, ends quiescent and involves at least two "
               "processes, a kill or a watcher firing; distinct by (configuration, schedule)")
+    from concurrent.futures import ThreadPoolExecutor
+    early = {}
+    if not c.replay:
+        # the real-observer / real-scheduler scenarios run while the schedules are generated and checked
+        ex = ThreadPoolExecutor(max_workers=3)
+        for kind, to in (("realobs", 60), ("abortwake", 90), ("seqexp", 120)):
+            sc0 = dict(kind=kind, scratch=str(c.scratch()))
+            if kind == "realobs":
+                sc0["total"] = 1
+            early[kind] = ex.submit(run_impl, "drive_c09.py", dict(scenarios=[sc0], timeout=to), to + 80)
     tc.run_check(c, "C09")
     if not c.replay or json.load(open(c.replay))["replay"].get("scenario", {}).get("kind") == "realobs":
         # end to end with the real observer thread (no shim)
         sc = dict(kind="realobs", total=1, scratch=str(c.scratch()))
-        r = run_impl("drive_c09.py", dict(scenarios=[sc], timeout=60), timeout=120)[0]
+        r = early["realobs"].result()[0] if "realobs" in early else run_impl("drive_c09.py", dict(scenarios=[sc], timeout=60), timeout=120)[0]
         c.extra["real_observer"] = r
         c.evaluations += 1
         if r.get("error"):
@@ -31,7 +41,7 @@ def run(c: Check):
         # the real scheduler loop (Scheduler.aio_submit / aio_start) around the token: a wake-up that arrives
         # while an aborted start unwinds must not be lost
         sc = dict(kind="abortwake", scratch=str(c.scratch()))
-        r = run_impl("drive_c09.py", dict(scenarios=[sc], timeout=90), timeout=150)[0]
+        r = early["abortwake"].result()[0] if "abortwake" in early else run_impl("drive_c09.py", dict(scenarios=[sc], timeout=90), timeout=150)[0]
         c.extra["aborted_start_wakeup"] = r
         c.evaluations += 1
         if r.get("error") or not r.get("aborted_start_seen"):
@@ -46,6 +56,31 @@ def run(c: Check):
                         dict(scenario=sc, observed=r))
         else:
             c.count("abortwake:ok")
+    if not c.replay or rk == "seqexp":
+        # successive experiments of one process reuse the token object of a name; the second asks it with a larger
+        # count; jobs wait at the first release
+        sc = dict(kind="seqexp", scratch=str(c.scratch()))
+        r = early["seqexp"].result()[0] if "seqexp" in early else run_impl("drive_c09.py", dict(scenarios=[sc], timeout=120), timeout=200)[0]
+        sc.pop("scratch")
+        c.extra["successive_experiments"] = r
+        c.evaluations += 1
+        if r.get("error") or "token_info_total" not in r:
+            c.count("seqexp:no-verdict")
+        else:
+            c.count("seqexp:ok")
+            if r["available_when_idle"] != r["token_info_total"] or not r["full_capacity_job_started"]:
+                c.violation("C09:idle-token-differs-from-token-info",
+                            "the token name asked again by a second experiment of the process: token.info says %d, the idle "
+                            "token shows %d available; a job asking %d was %s"
+                            % (r["token_info_total"], r["available_when_idle"], r["token_info_total"],
+                               "started" if r["full_capacity_job_started"] else "never started"),
+                            dict(scenario=sc, observed=r))
+            elif not r.get("waiters_ran") or r.get("second_experiment_exception"):
+                c.violation("C09:waiters-not-started-after-release:token-object-reused",
+                            "second experiment of the process reusing the token object: after the release of the job that "
+                            "held the whole token the two waiting jobs were not run (states %s, available %s, %s)"
+                            % (r.get("states"), r.get("available_at_end"), r.get("second_experiment_exception")),
+                            dict(scenario=sc, observed=r))
     c.level_assumptions = [
         "watchdog delivers each create/modify/delete event at most once, possibly late, in any order; an exception "
         "escaping a handler ends the observer thread (EventDispatcher.run only catches queue.Empty)",
